@@ -182,4 +182,14 @@ static std::string dispatch(const std::string &op, const Args &a)
     exit(2);
 }
 
-int main(int argc, char **argv) { vh::g_decoy = true; return run_main(argc, argv, dispatch); }
+static std::string slice_probe()
+{
+    ST::string a = ST_LITERAL("  key=value; list=a,b,,c ; END  ");
+    std::ostringstream o;
+    o << hex(a.trim()) << "|" << hex(a.substr(2, 9)) << "|" << hex(a.before_first('=')) << "|" << hex(a.after_last("; ")) << "|" << hex(a.replace("a", "AA", ST::case_insensitive));
+    for (const ST::string &p : a.split(",")) o << "|" << hex(p);
+    for (const ST::string &p : a.tokenize(" ;=")) o << "|" << hex(p);
+    return o.str();
+}
+
+int main(int argc, char **argv) { vh::g_decoy = true; vh::g_probe = slice_probe; return run_main(argc, argv, dispatch); }
